@@ -67,6 +67,31 @@ func Perturb(t *Term) []*Term {
 			}
 		}
 	}
+	// one side argument replaced by another tree of the pool
+	{
+		i := 0
+		for c := t; c != nil; c, i = c.Kid, i+1 {
+			for si := range c.Side {
+				for _, alt := range []int{0, 1, 4} {
+					v := t.Clone()
+					p := v
+					for k := 0; k < i; k++ {
+						p = p.Kid
+					}
+					nt := PoolTerm(alt)
+					if nt.String() == "" {
+						continue
+					}
+					nt.FillDefault()
+					if skeletonOf(nt) == skeletonOf(p.Side[si]) {
+						continue
+					}
+					p.Side[si] = nt
+					out = append(out, v)
+				}
+			}
+		}
+	}
 	// spine positions
 	var spine []*Term
 	for c := t; c != nil; c = c.Kid {
@@ -123,4 +148,16 @@ func Perturb(t *Term) []*Term {
 		}
 	}
 	return out
+}
+
+func skeletonOf(t *Term) string {
+	if t == nil {
+		return ""
+	}
+	s := t.Op.Name + "("
+	s += skeletonOf(t.Kid)
+	for _, x := range t.Side {
+		s += "|" + skeletonOf(x)
+	}
+	return s + ")"
 }
